@@ -313,6 +313,26 @@ def regviews(res, c, half):
                         reg.value = bg
                         prop.fset(reg, v)
                         c("%s.%s set(bool)" % (cname, pname), reg.value, scatter(bg, pos, int(v)), (hex(bg), v))
+        # view histories: read every field (a view that memoises what it read is now primed), write one field, read
+        # every field again - each must show the new register value, also the views that overlap the written one
+        if table is not None:
+            known = [(pn, getattr(cls, pn), table[pn]) for pn in props if table.get(pn) is not None]
+            for wn, wprop, wpos in known:
+                if wprop.fset is None:
+                    continue
+                for bg in BGS[:2]:
+                    for v in (0, (1 << len(wpos)) - 1):
+                        reg.value = bg
+                        for rn, rprop, rpos in known:
+                            rprop.fget(reg)
+                        wprop.fset(reg, v)
+                        now = scatter(bg, wpos, v)
+                        for rn, rprop, rpos in known:
+                            c("%s.%s get after %s set" % (cname, rn, wn), int(rprop.fget(reg)), gather(now, rpos), (hex(bg), v))
+                        # ... and after the whole register is assigned again
+                        reg.value = bg ^ 0xFFFFFFFF
+                        for rn, rprop, rpos in known:
+                            c("%s.%s get after value set" % (cname, rn), int(rprop.fget(reg)), gather(bg ^ 0xFFFFFFFF, rpos), (hex(bg),))
         for getter, setter, rng, posf in regfields.INDEXED.get(cname, []):
             if not hasattr(reg, getter):
                 res.fail("%s.%s missing" % (cname, getter), "accessor not found")
